@@ -1,21 +1,87 @@
 from .common import H
 
+# mpirun must not pin a rank to one core (Galois would then see a 1-thread machine and the
+# sender threads, the receiver threads and the communication thread of a host would share it)
+MPI_ENV = {"OMPI_MCA_hwloc_base_binding_policy": "none"}
+
+
+def net(cfg, np_, cases, maxthreads, **params):
+    p = dict(maxthreads=maxthreads)
+    p.update(params)
+    return H("c17_net", cfg, cases, mpi=np_, params=p, env=MPI_ENV, timeout_per_case=90, timeout_base=180)
+
 
 def c17(tier):
     runs = []
-    env = {}
-    for np_, cases, mt in ((1, 6, 4), (2, 8, 3), (3, 5, 2), (4, 5, 2)):
-        runs.append(H("c17_net", "dist", cases, mpi=np_, params=dict(maxthreads=mt), env=env,
-                      timeout_per_case=120, timeout_base=120))
+    if tier == "quick":
+        # part A: serialisation round trips under ASan+UBSan (single process, no MPI)
+        runs.append(H("c17_ser", "dist-asan", 1600, timeout_per_case=20, timeout_base=120))
+        # part B: the network layer, 1..4 hosts (np x busy threads kept around 8: every host also spins a communication thread)
+        runs.append(net("dist", 1, 40, 4))
+        runs.append(net("dist", 2, 50, 3))
+        runs.append(net("dist", 3, 30, 2))
+        runs.append(net("dist", 4, 30, 2))
+    else:
+        runs.append(H("c17_ser", "dist-asan", 16000, timeout_per_case=20, timeout_base=120))
+        runs.append(H("c17_ser", "dist", 30000, timeout_per_case=20, timeout_base=120))
+        runs.append(net("dist", 1, 300, 4))
+        runs.append(net("dist", 2, 400, 4))
+        runs.append(net("dist", 3, 300, 3))
+        runs.append(net("dist", 4, 300, 3))
+        runs.append(net("dist-asan", 1, 60, 4, maxcount=4000))
+        runs.append(net("dist-asan", 2, 80, 3, maxcount=4000))
+        runs.append(net("dist-asan", 3, 50, 2, maxcount=4000))
+        runs.append(net("dist-asan", 4, 50, 2, maxcount=4000))
     return runs
 
 
 SPEC = dict(
     runs=c17,
-    technique="runtime monitoring",
-    level_text="",
-    level_note="",
-    rule="",
-    require={},
-    assumptions=[],
+    technique="runtime monitoring + sanitizers: (A) generated values of every serialisable type family are written with the real "
+              "gSerialize overloads and read back with gDeserialize from receive buffers started at every byte offset 0..15 "
+              "(ASan+UBSan build: alignment, bounds, null); (B) under mpirun -np 1..4 the real buffered network layer carries "
+              "seed-determined message plans (sendTagged / recieveTagged / flush / getHostBarrier().wait() only, used like Gluon, "
+              "CuSP and libdist/Barrier.cpp) and every receiver re-generates and compares every planned message",
+    level_text="(A) Round trips held for every type family that Serialize.h can serialise (scalars, trivially copyable structs, "
+               "std::pair, std::string, vectors of trivially and non-trivially copyable elements, nested vectors, std::deque, "
+               "gdeque, PODResizeableArray, DynamicBitSet, galois::Pair/TupleOfThree, CopyableAtomic/CopyableArray, a type with "
+               "the serialize trait, std::tuple targets, lazy sequences, nested SerializeBuffer/DeSerializeBuffer, random "
+               "concatenations) for generated values incl. empty/boundary sizes, for every start alignment of the receive "
+               "buffer, into fresh and re-used targets, each field consuming exactly the bytes it produced. (B) Every planned "
+               "message (1 B .. 8 MB, around the 1400-byte aggregation threshold, up to 1e4 per pair, 1-4 sender threads, 1-2 "
+               "receiver threads, self-sends, two interleaved tags, tag wrap-around, with and without host barriers between "
+               "phases) arrived exactly once, byte-identical, in stream order, under the tag polled. Held on the executions "
+               "observed, not all schedules.",
+    level_note="Trusts: Open MPI (uninstrumented), the /dev/shm block used for barrier stamps and progress counters, x86-TSO. "
+               "Only the buffered MPI backend exists in this build (no LCI, no bare-MPI mode). 'message-lost' is a liveness "
+               "verdict with a patience window (all senders flushed, receiver polling, no host received anything for 40 s). "
+               "gSized() is only a reserve() hint and not part of the statement: compared and reported, not judged. "
+               "Type combinations that Serialize.h cannot compile (gSerialize of std::deque / std::tuple / std::set / std::map / "
+               "InsertBag / top-level CopyableAtomic, std::pair or galois::Pair holding a string or container at top level, "
+               "vectors of deque/gdeque/PODResizeableArray) cannot be exercised at run time.",
+    rule="part A: case = one record of 1..6 top-level fields (type combination drawn from 113 registered concrete types in 16 "
+         "families, or a nested-buffer / special-input construction) x one generated value x 17 reads (receive buffer started at "
+         "byte offsets 0..15 with fresh and re-used targets, plus the direct SerializeBuffer->DeSerializeBuffer hand-over); "
+         "non-trivial iff >=1 byte was produced and all 16 payload alignments were read; distinct by (family, type combination, "
+         "record size class). part B: case = 1..5 consecutive phases on np hosts, each phase a seed-determined plan (streams per "
+         "(src,dst,tag,sender thread), counts, sizes, sender/receiver thread counts, receive discipline, flush pattern, skew, "
+         "barrier or not); non-trivial iff >=2 phases and >=2 messages; distinct by (mode, np, size classes of the phases, "
+         "numbers of multi-threaded-send / multi-threaded-receive / two-tag phases, tag wrap, whether aggregation and phase skew "
+         "between hosts were observed)",
+    require={"roundtrips": 5000, "alignments_covered": 16, "reused_target_reads": 1000,
+             "msgs_received": 20000, "aggregating_cases": 1, "mt_send_phases": 1, "mt_recv_phases": 1, "two_tag_phases": 1,
+             "phase_skew_observed": 1, "msgs_under_32B": 1, "msgs_at_threshold": 1, "msgs_1MB_or_more": 1, "host_barriers": 1,
+             "tag_wrap_cases": 1, "self_msgs": 1, "buffers_sent_over_threshold": 1, "buffers_sent_on_flush": 1,
+             "net_cases_np1": 1, "net_cases_np2": 1, "net_cases_np3": 1, "net_cases_np4": 1},
+    assumptions=["Open MPI itself is correct (it is the transport, not the code under test) and MPI ranks share one machine "
+                 "(shared-memory BTL), so network-level reordering/loss can only come from Galois' own queues and threads",
+                 "barrier stamps and progress counters travel through a /dev/shm block (cross-process atomics, x86-TSO)",
+                 "tags are consumed in phase order on every host (a receive queue exposes only the tag at its head; polling an "
+                 "older/newer tag than the head is a usage error the harness never commits); zero-length messages are outside "
+                 "the statement (sizes 1 byte and up)",
+                 "deserialisation targets hold no string content before the read except in the dedicated component "
+                 "'string(reused target)'; strings contain no NUL except in 'string(embedded NUL)'; empty PODResizeableArray / "
+                 "DynamicBitSet values only in their '(empty)' components (each isolates one class of inputs under one key)",
+                 "message-lost is declared after a 40 s window in which every owing sender had flushed, the receiver polled and no "
+                 "host received anything (liveness cannot be decided without some patience)"],
 )
